@@ -56,6 +56,13 @@ CHECKS = {
         note="Trusted: the reference model (bash manual + docstrings); ambiguous forms (dir named '-' or '+1', logical vs physical '..') accept every documented reading; permission failures are made real by dropping CAP_DAC_OVERRIDE in the worker.",
         design="2/C16",
     ),
+    "C11": dict(
+        category="exploration",
+        technique="stateful model-based testing (Hypothesis RuleBasedStateMachine) with 2-3 actor threads driven in lock-step, so the harness owns the interleaving; reference model = global dict + per-thread stack of layers",
+        text="Histories of swap(**kw)/swap(dict)/swap(overlay=) enter and exit (normal, by Exception, by BaseException), DELETE_VAR masks, nested scopes on overlapping keys, plain set/del inside scopes, get/set_swapped_values hand-over to child threads, alias-style overlays and reads are executed by several actor threads one operation at a time; after every step and for every actor []/in/get/iteration/detype()/detype_all() must equal what the model says that thread sees, and each scope exit must restore the snapshot taken at entry. Eight recorded defects are tolerated only when an as-built twin model reproduces exactly that mechanism, or are excluded from generation (counted).",
+        note="Trusted: the reference model; both the layer and the snapshot reading of 'exactly as before' are accepted when another thread assigned the variable meanwhile; overlay-only keys missing from iteration are a reported weak class, not a violation; data races inside one Env method are not explored (lock-step schedule).",
+        design="2/C11",
+    ),
     "C13": dict(
         category="fault_enumeration",
         technique="fault injection with exhaustive crash-point and single-fault enumeration per generated scenario (fork + counting wrappers around file-system entry points; strace syscall-level kill injection for SQLite)",
